@@ -182,6 +182,10 @@ Fixpoint no_bad (m2m : bool) (s : cstate) (evs : list cev) : bool :=
   | e :: r => negb (bad_event m2m s e) && no_bad m2m (cstep m2m s e) r
   end.
 
+(* the proposed repair (Set.db_reverse_remove raises "phantom disappeared" on a fully loaded collection): the bad event fails loudly *)
+Definition cstep_fixed (m2m : bool) (s : cstate) (e : cev) : cstate := if bad_event m2m s e then cfail s else cstep m2m s e.
+Definition crun_fixed (m2m : bool) (s : cstate) (evs : list cev) : cstate := fold_left (cstep_fixed m2m) evs s.
+
 Fixpoint all_same (l : list (list nat)) : Prop :=
   match l with
   | x :: ((y :: _) as r) => x = y /\ all_same r
@@ -217,6 +221,8 @@ Fixpoint insert (i : nat) (l : list nat) : list nat :=
 Definition sort (l : list nat) : list nat := fold_right insert [] l.
 Definition coutcome (m2m : bool) (evs : list cev) : bool * list (list nat) :=
   let s := crun m2m cinit evs in (cfailed s, map sort (rev (cobs s))).
+Definition coutcome_fixed (m2m : bool) (evs : list cev) : bool * list (list nat) :=
+  let s := crun_fixed m2m cinit evs in (cfailed s, map sort (rev (cobs s))).
 Definition coutcome_eqb (x y : bool * list (list nat)) : bool := Bool.eqb (fst x) (fst y) && list_eqb (list_eqb Nat.eqb) (snd x) (snd y).
 
 Fixpoint failing_from (i : nat) (l : list bool) : list nat :=
